@@ -1,55 +1,17 @@
 import AvroModel.Theorems.C09globalC08
+import AvroModel.Theorems.GraphFuel
+import AvroModel.Theorems.NonVacuityE
 /-
 Non-vacuity audit, area E, parser side of C09 (`C09_reparsed_has_same_pcf`,
-`C09_reparsed_canonicalForm_eq`): the hypothesis "the rendered document parses" instantiated with the
-real parser model on the graph `gE` of `NonVacuityE.lean` (same definition, repeated here because the
-two files cannot share imports), at the driver's parameters (`graphFuel`, `n = 4 * jsonSize j + 8`);
-a renderable graph with well-formed names whose document the parser rejects (unconditional record
-cycle); and a graph where the fuel range of the conclusion misses the driver's fuel.
+`C09_reparsed_canonicalForm_eq` and their corollaries `*_at_graphFuel` of
+`Theorems/GraphFuel.lean`): the hypothesis "the rendered document parses" instantiated with the
+real parser model on the graph `gE` of `NonVacuityE.lean`, at the driver's parameters (the real
+`Avro.Impl.graphFuel`, `n = 4 * jsonSize j + 8`); a renderable graph with well-formed names whose
+document the parser rejects (unconditional record cycle); and a graph where the fuel range of the
+original conclusion misses the driver's fuel while the `_at_graphFuel` corollary concludes at it.
 -/
 namespace Avro.NonVacuityE2
-open Avro Avro.Impl Avro.Theorems Avro.Spec.Pcf
-
-/-- copy of `Driver.graphFuel` (`Driver/Main.lean`, line 29) -/
-def graphFuel (S : SchemaMut) : Nat := (S.size + 2) * (S.size + 2) * (maxWidth S + 2) + 64
-
-def gE : SchemaMut := #[
-  ⟨.record ⟨"ns.Node", "Node", some "ns"⟩
-      [("value", 1), ("next", 2), ("color", 3), ("more", 4), ("top", 6), ("top2", 6), ("box", 7)], none⟩,
-  ⟨.long, some .timestampMicros⟩,
-  ⟨.union [5, 0], none⟩,
-  ⟨.enum ⟨"other.Color", "Color", some "other"⟩ ["R", "G"], none⟩,
-  ⟨.array 3, none⟩,
-  ⟨.null, none⟩,
-  ⟨.fixed ⟨"Top", "Top", none⟩ 16, some (.decimal 2 10)⟩,
-  ⟨.record ⟨"other.Box", "Box", some "other"⟩ [("c", 3), ("n", 2), ("t", 6), ("again", 4)], none⟩]
-
-def jE : Json :=
-  .obj [("type", .str "record"), ("name", .str "ns.Node"), ("fields", .arr [
-    .obj [("name", .str "value"), ("type",
-      .obj [("logicalType", .str "timestamp-micros"), ("type", .str "long")])],
-    .obj [("name", .str "next"), ("type", .arr [.str "null", .str "Node"])],
-    .obj [("name", .str "color"), ("type", .obj [("type", .str "enum"),
-      ("name", .str "other.Color"), ("symbols", .arr [.str "R", .str "G"])])],
-    .obj [("name", .str "more"), ("type",
-      .obj [("type", .str "array"), ("items", .str "other.Color")])],
-    .obj [("name", .str "top"), ("type", .obj [("logicalType", .str "decimal"),
-      ("type", .str "fixed"), ("scale", .nat 2), ("precision", .nat 10),
-      ("namespace", .str ""), ("name", .str "Top"), ("size", .nat 16)])],
-    .obj [("name", .str "top2"), ("type", .str ".Top")],
-    .obj [("name", .str "box"), ("type", .obj [("type", .str "record"),
-      ("name", .str "other.Box"), ("fields", .arr [
-        .obj [("name", .str "c"), ("type", .str "Color")],
-        .obj [("name", .str "n"), ("type", .arr [.str "null", .str "ns.Node"])],
-        .obj [("name", .str "t"), ("type", .str ".Top")],
-        .obj [("name", .str "again"), ("type",
-          .obj [("type", .str "array"), ("items", .str "Color")])]])])]])]
-
-theorem graphFuel_gE : graphFuel gE = 964 := by decide +kernel
-
-theorem gE_render : renderJson gE (graphFuel gE) = .ok jE := by
-  rw [graphFuel_gE]; rfl
-
+open Avro Avro.Impl Avro.Theorems Avro.Spec.Pcf Avro.NonVacuityE
 
 def gE2 : SchemaMut := #[
   ⟨.record ⟨"ns.Node", "Node", some "ns"⟩
@@ -102,6 +64,22 @@ example : canonicalForm gE2 (graphFuel gE2) = canonicalForm gE (graphFuel gE) :=
   C09_reparsed_canonicalForm_eq gE (graphFuel gE) jE 256 gE2 (by decide +kernel) gE_render jE_parse
     (graphFuel gE) (graphFuel gE2) (Nat.le_refl _) (by decide +kernel)
 
+/-- the corollaries at the driver's fuel: no arithmetic side condition left -/
+example : ∃ text, parsingCanonicalForm jE = some text ∧
+      canonicalForm gE (graphFuel gE) = .ok text ∧ canonicalForm gE2 (graphFuel gE2) = .ok text :=
+  C09_reparsed_has_same_pcf_at_graphFuel gE jE 256 gE2
+    (RenderPcf.namesWF_of_b gE (by decide +kernel)) gE_render jE_parse
+
+example : canonicalForm gE2 (graphFuel gE2) = canonicalForm gE (graphFuel gE) :=
+  C09_reparsed_canonicalForm_eq_at_graphFuel gE jE 256 gE2 (by decide +kernel) gE_render jE_parse
+
+example : schemaFingerprint gE2 (graphFuel gE2) = schemaFingerprint gE (graphFuel gE) :=
+  C09_reparsed_fingerprint_eq_at_graphFuel gE jE 256 gE2 (by decide +kernel) gE_render jE_parse
+
+example : ∃ text, parsingCanonicalForm jE = some text ∧ canonicalForm gE2 (graphFuel gE2) = .ok text :=
+  C08_pcf_is_spec_text_at_graphFuel jE 256 gE2 jE_parse
+    (C09_render_has_graph_pcf_at_graphFuel gE jE gE_wf gE_render).1
+
 
 /-- hparse is not implied by hwf + hrender: a record that contains itself unconditionally renders, and the parser's cycle check rejects the document -/
 def gSelf : SchemaMut := #[⟨.record ⟨"n.R", "R", some "n"⟩ [("f", 0), ("g", 1)], none⟩, ⟨.int, none⟩]
@@ -132,5 +110,21 @@ example : ∃ text, parsingCanonicalForm jEnum = some text ∧
     (RenderPcf.namesWF_of_b gEnum (by decide +kernel)) gEnum_render jEnum_parse
 
 example : ¬ (4 * jsonSize jEnum + 8 + 2 ≤ graphFuel gEnum) := by decide +kernel
+
+/-- … and the corollaries at the driver's fuel do conclude there (82, outside `86 ≤ fuel''`) -/
+example : ∃ text, parsingCanonicalForm jEnum = some text ∧
+      canonicalForm gEnum (graphFuel gEnum) = .ok text ∧
+      canonicalForm gEnum (graphFuel gEnum) = .ok text :=
+  C09_reparsed_has_same_pcf_at_graphFuel gEnum jEnum _ gEnum
+    (RenderPcf.namesWF_of_b gEnum (by decide +kernel)) gEnum_render jEnum_parse
+
+example : ∃ c, canon none jEnum = some c ∧ canonicalForm gEnum (graphFuel gEnum) = .ok (print c) :=
+  C08_pcf_is_spec_at_graphFuel jEnum _ gEnum jEnum_parse (by decide +kernel)
+
+/-- `C07_valid_parses_checked_at_graphFuel` on the same document at the driver's `n` -/
+example : ∃ S text, parseJson jEnum (4 * jsonSize jEnum + 8) = .ok S ∧
+      parsingCanonicalForm jEnum = some text ∧ canonicalForm S (graphFuel S) = .ok text :=
+  C07_valid_parses_checked_at_graphFuel jEnum _ (by decide +kernel) (by decide +kernel)
+    (by decide +kernel) (by decide +kernel)
 
 end Avro.NonVacuityE2
